@@ -460,7 +460,9 @@ class Term:
         for v in svars:
             if v.name in inst:
                 try:
-                    inst_T = inst[v.name].get_type()
+                    # Full type check: the instance is inserted under binders as is, so it
+                    # must be closed (get_type does not look at arguments of applications).
+                    inst_T = inst[v.name].checked_get_type()
                     v.T.match_incr(inst_T, inst.tyinst)
                 except TypeMatchException:
                     raise TermException("subst: type " + str(v.T) + " cannot match " + str(inst_T))
@@ -479,8 +481,8 @@ class Term:
                 if t.name in inst.var_inst:
                     s = inst.var_inst[t.name]
                     # The replacement must be a closed term of the type of the variable
-                    # (get_type raises TypeCheckException on open terms).
-                    if s.get_type() != t.T:
+                    # (checked_get_type raises TypeCheckException on open terms).
+                    if s.checked_get_type() != t.T:
                         raise TermException("subst: type of %s does not match variable %s" % (s, t.name))
                     return s
                 else:
